@@ -44,7 +44,8 @@ def tasks(tier, seed):
         for S in subsets:
             bs = backends if tier != "quick" else [backends[n % 3]]
             n += 1
-            out.append({"family": "HYB", "id": text_id(text, S), "text": text, "opts": {"stiff": S, "backends": bs}})
+            delta = [1e-8, 0.05, 0.5][n % 3]
+            out.append({"family": "HYB", "id": text_id(text, [S, delta]), "text": text, "opts": {"stiff": S, "backends": bs, "delta": delta}})
     if tier != "quick":
         for p in families.corpus(["fitzhughnagumo.ode", "beeler_reuter_1977.ode", "lorentz.ode"]):
             import re as _re
@@ -64,7 +65,7 @@ def work(task):
     Sset = set(S)
     for backend in o.get("backends", ["numpy"]):
         view = checks.make_view(prog, ode, backend, schemes=["explicit_euler", "generalized_rush_larsen", "hybrid_rush_larsen"],
-                                stiff_states=list(S))
+                                stiff_states=list(S), delta=o.get("delta", 1e-8))
         if view is None:
             continue
         parts = {}
